@@ -2938,6 +2938,43 @@ class TensorDictBase(MutableMapping):
         # check first (descending into the nested tensordicts that will have to grow),
         # so that a rejected assignment leaves every nested batch size untouched
         self._check_new_batch_size(new_batch_size)
+        # what remains can still fail once nested tensordicts have been resized (a dim name
+        # pushed into a nested tensordict may clash with one of its own names): the batch
+        # sizes and names are then put back, so that a refused assignment changes nothing
+        snapshot = self._nested_meta_snapshot()
+        try:
+            self._batch_size_setter_checked(new_batch_size)
+        except Exception:
+            self._nested_meta_restore(snapshot)
+            raise
+
+    def _nested_meta_snapshot(self) -> list:
+        """Batch size and dim names of self and of every nested TensorDict (tensorclass-held ones included)."""
+        from tensordict._td import TensorDict
+
+        out = []
+        stack = [self]
+        while stack:
+            node = stack.pop()
+            if _is_tensorclass(type(node)):
+                node = node._tensordict
+            if not isinstance(node, TensorDict) or node._lazy:
+                # lazy stacks refuse any new batch size before anything is modified
+                continue
+            names = node._td_dim_names
+            out.append((node, node.batch_size, None if names is None else list(names)))
+            for value in node._tensordict.values():
+                if _is_tensor_collection(type(value)):
+                    stack.append(value)
+        return out
+
+    @staticmethod
+    def _nested_meta_restore(snapshot: list) -> None:
+        for node, batch_size, names in snapshot:
+            node._change_batch_size(batch_size)
+            node._td_dim_names = names
+
+    def _batch_size_setter_checked(self, new_batch_size: torch.Size) -> None:
         for key, value in self.items():
             if _is_tensor_collection(type(value)):
                 if len(value.batch_size) < len(new_batch_size):
